@@ -1,6 +1,7 @@
 CFG = {
     "lean_targets": ["Norad.Props.C12"],
     "audit": "Norad/Audit/C12.lean",
+    "extract": "glif_parser",
     "rule": ("glif documents composed from legal building blocks (every element kind, both format versions, random element and "
              "attribute order) with each of 46 violation / variation kinds injected at random applicable positions (2 per kind and base "
              "document in quick, 3 in thorough), a second independent violation on top in 1 of 12, plus text-level damage "
@@ -31,11 +32,15 @@ MANIFEST = {
     "text": ("Theorems about parseGlif, the transcription of GlifParser::from_xml as a state machine over quick-xml events: every state-level rejection rule "
              "(duplicate advance/outline/lib/note/image, version gating per element and per identifier attribute, duplicate or malformed identifier across the five "
              "element kinds, unknown element/attribute, missing required attribute, guideline shape and angle range, malformed number, non-dictionary lib), "
-             "well-formedness of every returned glyph (identifiers unique, no public.objectLibs key, contours C11.Legal, angles in range, image name a single "
-             "component), attribute-order independence, the format-1 anchor upgrade. Tied to the code by ~20k generated documents per run through "
-             "Glyph::parse_raw vs the compiled model on the quick-xml event list, plus an independent shaped-document specification (Spec/C12.lean) evaluated on the "
-             "implementation's own verdict and on the returned glyph."),
-    "design_ref": "5 / C12, section 4 (XML at event level), Appendix F",
-    "note": "trusted: Lean kernel, quick-xml tokenising, plist's verdict on the lib slice, Rust float parsing (parameters of the model); seven recorded findings, one fix (comments)",
-    "technique": "Lean 4 theorems (state-machine invariants, fold lemmas) + correspondence on generated documents with violation injection + independent specification oracle",
+             "returned_glyph_wellformed for every event list, attribute-order independence for all nine attribute loops and for whole documents, the format-1 anchor "
+             "upgrade, legal_accepted for a generative grammar of format-2 documents (any item order, comments anywhere, any attribute order, any spelling that reads "
+             "back), and the element-level link from the table-driven specification (a Spec.elemCheck-clean self-closing element is accepted in any state at its level). "
+             "SOURCE-LEVEL TIE: tools/extract_glif_parser.py re-reads src/glyph/parse.rs on every run (attribute names per loop, required attributes and guideline "
+             "shapes, element dispatch per level, format-1 refusals, once-only guards, defaults, level error variants, comment skipping); nine audited source_* theorems "
+             "state that these tables are the model's (each model table is proved, for all strings, to characterise its function) and the specification's. "
+             "Behavioural tie: ~20k generated documents per run through Glyph::parse_raw vs the compiled model on the quick-xml event list, plus the independent "
+             "shaped-document specification (Spec/C12.lean) evaluated on the implementation's own verdict and on the returned glyph."),
+    "design_ref": "5 / C12, section 4 (XML at event level), 11.8 (source-level ties), Appendix F",
+    "note": "trusted: Lean kernel, quick-xml tokenising, plist's verdict on the lib slice, Rust float parsing (parameters of the model), the regex extractor in one direction only (a wrong extraction can fail a theorem or fall back to the pinned table, never make a false theorem check); eight recorded findings, one fix (comments)",
+    "technique": "Lean 4 theorems (state-machine invariants, fold lemmas, generative grammar) + source-level table extraction with decide-checked ties + correspondence on generated documents with violation injection + independent specification oracle",
 }
